@@ -94,4 +94,80 @@ mod verif_kani {
         assert!(sk1.0 == [data[0], data[1], data[2], data[3]]);
         assert!(r1.pos == 4 && r2.pos == 4);
     }
+
+    // ---- C10 / C13 at the DHKEM level: the REAL X25519 encap_with_eph / decap with the Montgomery ladder and
+    // HKDF stubbed; the k-th DH result is all-zero for a nondeterministically chosen k ----
+    static mut DH_CALLS: u8 = 0;
+    static mut DH_ZERO_AT: u8 = 0;
+    fn dh_script(_sk: &x25519_dalek::StaticSecret, _pk: &x25519_dalek::PublicKey) -> x25519_dalek::SharedSecret {
+        unsafe {
+            let k = DH_CALLS;
+            DH_CALLS += 1;
+            let out: [u8; 32] = if k == DH_ZERO_AT { [0u8; 32] } else { [7u8; 32] };
+            core::mem::transmute::<[u8; 32], x25519_dalek::SharedSecret>(out)
+        }
+    }
+    fn kdf_stub<Kdf: crate::kdf::Kdf>(_ikm: &[u8], _suite_id: &[u8], _info: &[u8], _out: &mut [u8]) -> Result<(), hkdf::InvalidLength> { Ok(()) }
+    fn sk_to_pk_stub(_sk: &<X25519HkdfSha256 as Kem>::PrivateKey) -> <X25519HkdfSha256 as Kem>::PublicKey {
+        use crate::Deserializable;
+        <X25519HkdfSha256 as Kem>::PublicKey::from_bytes(&[9u8; 32]).unwrap()
+    }
+
+    /// whichever of the DH computations inside AuthDecap yields the all-zero value (k = 0: DH(skR, pkE),
+    /// k = 1: DH(skR, pkS)), decap fails with DecapError; if none does it succeeds
+    #[kani::proof]
+    #[kani::unwind(140)]
+    #[kani::stub(x25519_dalek::StaticSecret::diffie_hellman, dh_script)]
+    #[kani::stub(crate::kdf::extract_and_expand, kdf_stub)]
+    #[kani::stub(<crate::dhkex::x25519::X25519 as crate::dhkex::DhKeyExchange>::sk_to_pk, sk_to_pk_stub)]
+    #[kani::stub(zeroize::optimization_barrier, noop_barrier)]
+    fn x25519_decap_zero_dh_rejected() {
+        use crate::Deserializable;
+        type K = X25519HkdfSha256;
+        let sk = <K as Kem>::PrivateKey::from_bytes(&[1u8; 32]).unwrap();
+        let pks = <K as Kem>::PublicKey::from_bytes(&[2u8; 32]).unwrap();
+        let enc = <K as Kem>::EncappedKey::from_bytes(&[3u8; 32]).unwrap();
+        let auth: bool = kani::any();
+        let zero_at: u8 = kani::any();
+        kani::assume(zero_at <= 2);
+        unsafe { DH_CALLS = 0; DH_ZERO_AT = zero_at; }
+        let r = K::decap(&sk, if auth { Some(&pks) } else { None }, &enc);
+        let n_dh: u8 = if auth { 2 } else { 1 };
+        kani::cover!(auth && zero_at == 1);
+        kani::cover!(!auth && zero_at == 2);
+        if zero_at < n_dh {
+            assert!(matches!(r, Err(HpkeError::DecapError)));
+        } else {
+            assert!(r.is_ok());
+        }
+    }
+
+    /// sender side: whichever DH inside (Auth)Encap is all-zero (k = 0: DH(skE, pkR), k = 1: DH(skS, pkR)),
+    /// encapsulation fails with EncapError; otherwise it succeeds and enc = pk(skE)
+    #[kani::proof]
+    #[kani::unwind(140)]
+    #[kani::stub(x25519_dalek::StaticSecret::diffie_hellman, dh_script)]
+    #[kani::stub(crate::kdf::extract_and_expand, kdf_stub)]
+    #[kani::stub(<crate::dhkex::x25519::X25519 as crate::dhkex::DhKeyExchange>::sk_to_pk, sk_to_pk_stub)]
+    #[kani::stub(zeroize::optimization_barrier, noop_barrier)]
+    fn x25519_encap_zero_dh_rejected() {
+        use crate::Deserializable;
+        type K = X25519HkdfSha256;
+        let ske = <K as Kem>::PrivateKey::from_bytes(&[1u8; 32]).unwrap();
+        let sks = <K as Kem>::PrivateKey::from_bytes(&[4u8; 32]).unwrap();
+        let pks = <K as Kem>::PublicKey::from_bytes(&[2u8; 32]).unwrap();
+        let pkr = <K as Kem>::PublicKey::from_bytes(&[3u8; 32]).unwrap();
+        let auth: bool = kani::any();
+        let zero_at: u8 = kani::any();
+        kani::assume(zero_at <= 2);
+        unsafe { DH_CALLS = 0; DH_ZERO_AT = zero_at; }
+        let r = crate::kem::x25519_hkdfsha256::encap_with_eph(&pkr, if auth { Some((&sks, &pks)) } else { None }, ske);
+        let n_dh: u8 = if auth { 2 } else { 1 };
+        kani::cover!(auth && zero_at == 1);
+        if zero_at < n_dh {
+            assert!(matches!(r, Err(HpkeError::EncapError)));
+        } else {
+            assert!(r.is_ok());
+        }
+    }
 }
